@@ -88,6 +88,9 @@ def run_case(args):
                 recs.append(dict(case=case.name, label='<path>', verdict='inconclusive', why=outcome,
                                  path=[t for t, _ in c.decisions]))
                 # claims made before the cut are still solved below
+            if outcome.startswith('harness-bug'):
+                recs.append(dict(case=case.name, label='<path>', verdict='harness-error', why=outcome,
+                                 path=[t for t, _ in c.decisions]))
             if outcome.startswith('error'):
                 pcs, ax = list(c.path_condition()), list(c.axioms)
                 lab = "unexpected-exception:" + outcome.split(':')[1].strip()
@@ -249,7 +252,14 @@ def finish(cid, tier, seed, mod, cases, results, t0):
         out_lines.append("KNOWN-FINDING: property=%s %s [%s; %d matching counterexample(s), e.g. %s]" % (
             cid, k['what'], kid, len(hits), hits[0]))
     seen_v = set()
+    per_case = {}
     for r in violations:
+        per_case[r['case']] = per_case.get(r['case'], 0) + 1
+    shown_cases = set()
+    for r in violations:
+        if r['case'] in shown_cases:
+            continue            # one line per case; every violating claim is in the evidence / replay file
+        shown_cases.add(r['case'])
         body = dict(check=cid, case=r['case'], label=r['label'], tier=tier, seed=seed, model=r.get('model'),
                     replay=r.get('replay'))
         hsh = hashlib.sha1(json.dumps([r['case'], r['label']], sort_keys=True).encode()).hexdigest()[:12]
@@ -259,8 +269,8 @@ def finish(cid, tier, seed, mod, cases, results, t0):
         seen_v.add(path)
         json.dump(body, open(path, "w"), indent=1)
         fails = (r.get('replay') or {}).get('fails')
-        out_lines.append("VIOLATION property=%s replay=%s   # %s::%s %s" % (cid, path, r['case'], r['label'],
-                                                                         (fails or [''])[0]))
+        out_lines.append("VIOLATION property=%s replay=%s   # %s::%s %s (%d violating claim(s) in this case)" % (
+            cid, path, r['case'], r['label'], (fails or [''])[0], per_case[r['case']]))
     inconcl = [r for r in recs if r['verdict'] in ('inconclusive',)]
     unrepro = [r for r in recs if r['verdict'] == 'unreproduced']
     herr = [r for r in recs if r['verdict'] == 'harness-error']
